@@ -299,7 +299,7 @@ func (v *VM) exec() {
 		case codeFastGetInt:
 			i := &codes[v.frame.N]
 			r := v.stack[baseN+int(i.A)]
-			val, _ := r.Get(Int(int(i.B)))
+			val, _ := r.Get(newUntypedInt(int(i.B)))
 			v.stack = append(v.stack, val)
 
 		case codeFastSetInt:
@@ -307,7 +307,7 @@ func (v *VM) exec() {
 			val := v.stack[len(v.stack)-1]
 			v.stack = v.stack[:len(v.stack)-1]
 			r := v.stack[baseN+int(i.A)]
-			r.Set(Int(int(i.B)), val)
+			r.Set(newUntypedInt(int(i.B)), val)
 
 		case codeFastCall:
 			i := &codes[v.frame.N]
